@@ -75,6 +75,7 @@ def check_case(case, stats=None):
     version = case["version"]
     handed = []  # (id, lifetime)
     parked = {}  # id -> requester: responses withheld because the requester is a sleeping node
+    announced = set()  # nodes whose own presentation (types 17 / 18) arrived since the last restart
     lifetime = 0
     requests = 0
     separated = False
@@ -111,6 +112,7 @@ def check_case(case, stats=None):
                 life = persist.Lifetime(fake, version, path)
                 barrier_since_request = True
                 parked.clear()  # withheld replies are transient: they do not survive a restart
+                announced.clear()
             elif kind == "line":
                 before = set(life.gw.sensors)
                 step = life.driver.line(op["text"])
@@ -118,6 +120,9 @@ def check_case(case, stats=None):
                     if stats is not None:
                         stats.label("foreign:pump-crash")
                     return
+                f = codec.decode(op["text"]) if op["text"].count(";") == 5 and op["text"].split(";")[0].isdigit() else None
+                if f is not None and f[1:3] == (255, 0) and f[4] in (17, 18):
+                    announced.add(f[0])  # a node that presented itself during this lifetime is known - whatever the gateway's table says
                 grown = set(life.gw.sensors) - before
                 if grown and max(grown) > (max(before) if before else 0) + 1:
                     barrier_since_request = True
@@ -165,6 +170,8 @@ def check_case(case, stats=None):
                     raise Violation("id_out_of_range", case, where)
                 if new_id in known:
                     raise Violation("id_of_known_node", case, where)
+                if new_id in announced:
+                    raise Violation("id_of_presented_node", case, where + f"; nodes that presented themselves since the last restart {sorted(announced)}")
                 if new_id in [h[0] for h in handed]:
                     prev = [h for h in handed if h[0] == new_id][0]
                     clause = "id_handed_out_twice_across_restart" if prev[1] != lifetime else "id_handed_out_twice"
